@@ -278,6 +278,28 @@ def hash_covers(ck, ctx, rule="hash-covers", rule_excl="hash-excludes"):
         ck.ob(rule, "%s(%s)" % n, ok, "build_manifest feeds %s of %s into the manifest %s" % (n[0], n[1], "(iff rspfile is Some)" if n[0] == "write_rsp" else "on every path"), span=hits[0][3]["loc"] if hits else b.loc, fn=b.nname)
     extra = [g for g in got if g not in need]
     ck.ob(rule_excl, "nothing-else", not extra, "build_manifest feeds nothing but the five declared categories (extra: %s)" % extra, span=b.loc, fn=b.nname)
+    # sections are delimited: after the ids of a list, and after the command line, a separator byte goes into the hash on every path
+    # (otherwise moving a name between adjacent categories, or bytes between the command and what follows, would not change it)
+    ws = F.body("hash::TerseHash::write_separator")
+    okw = False
+    if ws is not None:
+        WS = ctx.res(ws)
+        wcs = [(bb, t) for bb, t in ws.calls() if callee_of(t).endswith("Hasher>::write_u8") or callee_of(t).endswith("Hasher::write_u8") or callee_of(t).endswith("::write_u8")]
+        okw = len(wcs) == 1 and all(ctx.cfg(ws).dominates(wcs[0][0], r) for r in ctx.cfg(ws).returns()) and WS.arg(wcs[0][0], 1)[0] == "const"
+        ck.functions.add(ws.nname)
+    ck.ob(rule, "separator|writes-a-byte", okw, "TerseHash::write_separator feeds one constant byte into the hasher on every path", span=ws.loc if ws else None, fn="hash::TerseHash::write_separator")
+    for meth in ("write_files", "write_cmdline"):
+        mb = F.body("<hash::TerseHash as hash::Manifest>::%s" % meth)
+        oks = False
+        if mb is not None:
+            mcfg = ctx.cfg(mb)
+            seps = [bb for bb, t in mb.calls() if callee_of(t) == "hash::TerseHash::write_separator"]
+            oks = len(seps) == 1 and mcfg.enclosing_loop_header(seps[0]) is None and all(mcfg.dominates(seps[0], r) for r in mcfg.returns())
+            # ... and it comes last
+            if oks:
+                after = mcfg.reach_avoid([y for y, _ in mcfg.succ[seps[0]]])
+                oks = not any(mb.blocks[y]["term"] and mb.blocks[y]["term"]["k"] == "call" and callee_of(mb.blocks[y]["term"]).startswith(("hash::", "std::hash", "<")) and "drop" not in callee_of(mb.blocks[y]["term"]) for y in after)
+        ck.ob(rule, "separator|after-%s" % meth, oks, "TerseHash::%s ends its section with write_separator() on every path" % meth, span=mb.loc if mb else None, fn="<hash::TerseHash as hash::Manifest>::%s" % meth)
     # per-file content: name and mtime of every id
     for impl in ("hash::TerseHash", "hash::ExplainHash"):
         wf = F.body("<%s as hash::Manifest>::write_files" % impl)
